@@ -51,6 +51,9 @@ func (store *Store) Init(
 	if store.basepath != "" {
 		return fmt.Errorf("fsstore: cannot init: is already initialized")
 	}
+	if escapingFunc == nil {
+		escapingFunc = func(key string) string { return key }
+	}
 	store.basepath = basepath
 	store.escapingFunc = escapingFunc
 	store.shardingFunc = shardingFunc
@@ -76,7 +79,7 @@ func (store *Store) pathForKey(key string) string {
 	shards := make([]string, 1, 4) // future work: would be nice if we could reuse this rather than fresh allocating.
 	shards[0] = store.basepath     // not part of the path shard, but will be a param to Join, so, practical to put here.
 	//shards[1] = storageDir       // not part of the path shard, but will be a param to Join, so, practical to put here.
-	store.shardingFunc(key, &shards)
+	store.shardingFunc(store.escapingFunc(key), &shards) // the sharding function is applied to the escaped form.
 	return filepath.Join(shards...)
 }
 
